@@ -188,6 +188,13 @@ def build_program(states, rng, per_sig=6, kinds=("function",), max_sigs=None):
                     break
             add(dict(base, args=a, kwargs=k, mode="check"), role="check_after", cls=(n, image(st)))
             add(dict(base, args=a, kwargs=k, mode="shelve"), role="equiv", cls=(n, image(st)))
+            if n % 2 == 0 and st is chosen[0]:
+                # a forced execution through .call() stores its result like an ordinary call of the same arguments - and not
+                # like the call whose two positional arguments are the packed (args, kwargs) of this one
+                add(dict(base, args=a, kwargs=k, mode="force"), role="force", cls=(n, image(st)))
+                add(dict(base, args=a, kwargs=k, mode="call"), role="equiv", cls=(n, image(st)))
+                if any(s2["npos"] == 2 and not s2["kw"] for s2 in shapes):
+                    add(dict(base, args="(%s, %s, )" % (a, k), kwargs="{}", mode="call"), role="perturbed", cls=(n, "packed|" + image(st)))
             # near-colliding value in exactly one bound parameter: never the same entry
             if toks:
                 tok = toks[rng.randrange(len(toks))]
@@ -304,7 +311,7 @@ def judge(c, own, steps, exp, lines, phase, done=None):
         if own == "C02" and l["value"] != l.get("plain"):
             c.violation(dict(key, kind="wrong_value"), "C02: cached call returns %s but the function returns %s for %s(*%s, **%s) [%s]" %
                         (l["value"][:200], str(l.get("plain"))[:200], st["f"], st["args"], st["kwargs"], e["role"]), {})
-        if own == "C06" and cls in done and l["executed"] != 0:
+        if own == "C06" and cls in done and l["executed"] != 0 and e["role"] != "force":
             c.violation(dict(key, kind="executed_although_cached"), "C06: an equivalent form of a completed call executed the function again: %s(*%s, **%s) [%s]" %
                         (st["f"], st["args"], st["kwargs"], e["role"]), {})
         done.add(cls)
